@@ -421,6 +421,16 @@ def extent_findings(dv: DecoderView):
     if dv.soh + "10=" not in kinds_lits:
         bad.append(("extent[trailer]", "the frame extent is not cut at the SOH-anchored CheckSum trailer: with the start of the next frame already in the "
                                        "buffer the fragment is parsed as a field of this frame, which then fails its checksum and is lost", dv.fn))
+    # the trailer search covers the frame from its first byte (a start argument other than 0 skips the trailer of a frame in front of junk)
+    for n in walk_no_nested(dv.fn):
+        if isinstance(n, ast.Call) and isinstance(n.func, ast.Attribute) and n.func.attr in ("find", "index") and len(n.args) >= 2 \
+                and dv.fold_str(n.args[0]) == dv.soh + "10=" and isinstance(n.args[1], (ast.Constant, ast.UnaryOp)):
+            lo_ = n.args[1].value if isinstance(n.args[1], ast.Constant) else (-n.args[1].operand.value if isinstance(n.args[1].operand, ast.Constant)
+                                                                              and isinstance(n.args[1].operand.value, int) else None)
+            if isinstance(lo_, int) and not isinstance(lo_, bool) and lo_ != 0 and not 0 < lo_ <= 8:
+                bad.append(("extent[trailer searched from the frame's first byte]",
+                            f"the CheckSum trailer is searched from position {lo_} of the frame text, not from its start: the frame's own trailer is not seen and the "
+                            "extent runs on to the next frame marker, junk between the two included", n))
     # ... on every path: the trailer is searched for whenever the text is split (not only when no next frame was seen), and where
     # the trailer and its closing SOH were found nothing else than a value computed from that position is the extent
     inst += 1
